@@ -22,6 +22,33 @@ CLAIMED = {
         note="Same trusted base as C01. Each then() registration is a distinct target; remove_then removes the first equal entry."),
 }
 
+CLAIMED["C05"] = dict(
+    text="Lean 4 theorems over every reachable state of a model of Lock.__enter__/__exit__/wait at the granularity of every access "
+         "to Lock.lock and Lock.waiting (any number of threads, arbitrary monitor programs, timeouts fired by the environment at any "
+         "point): at most one thread inside; a parked thread is outside; wait() returns only through the re-acquire step, which needs "
+         "the mutex free, on the signalled, timed-out and both paths; __exit__ (also on exceptions) never blocks and releases.",
+    design="§5 C05", technique="Lean 4 inductive invariant (22 fields, 13 step cases + calls) + trace acceptance of real Lock executions",
+    note="Trusted: Lean kernel + standard axioms; hand-written model Monitor.lean tied to lock.py by trace acceptance under the "
+         "deterministic scheduler (real Signal/OrSignal underneath); waiter.go()/both.wait() atomic in the model (justified by C01, "
+         "not proved as a refinement); `with` calls __exit__ on exceptions (Python semantics, modelled).")
+CLAIMED["C06"] = dict(
+    text="Lean 4 theorems on the same model, generic in the guarded state and in the waiters' declared conditions: every release "
+         "signals the oldest waiter if there is one (or the releasing waiter is alone with a false condition); signals are not lost; "
+         "the waiting list holds exactly the registered, not yet returned waiters (no ghosts, no duplicates); wait() returns False "
+         "only if its till fired; L1: in every quiescent state with the lock free every parked waiter's condition is false.",
+    design="§5 C06", technique="Lean 4 inductive invariant with baton ghosts (hot list, hand) + trace acceptance + trace-level baton monitor",
+    note="Same trusted base as C05. Liveness is stated as 'no bad quiescent state' (L1); bounded progress (L2) does not hold for the "
+         "unchanged code when >=2 threads re-wait (that is the C20 finding), so fair termination is L1 plus fairness, not a ranking.")
+CLAIMED["C20"] = dict(
+    text="PARTIAL: proved — a thread parked in Signal.wait() (flag false) or Lock.wait() (not signalled, not timed out) is disabled; "
+         "waiter signals are fired only by a release; a single Lock waiter leaves the system quiescent. Disproved for the unchanged "
+         "code — two or more re-waiting threads on one Lock wake each other forever (Lean witness + replay on the real code): open "
+         "known finding C20/two-or-more-waiters-on-one-lock, printed as KNOWN-FINDING. Any other busy-wait (single waiter spinning, "
+         "Signal.wait spinning) is reported as a VIOLATION.",
+    design="§5 C20, §7", technique="Lean 4 theorems + decide-checked negation witness; livelock monitor on real Lock runs under the scheduler",
+    note="Same trusted base as C01/C05. The full property is false on the unchanged tree; no small safe repair exists within the "
+         "implicit-notify API (DESIGN §7), so it is a recorded finding, not a fix.")
+
 PENDING = {}
 
 
